@@ -41,8 +41,13 @@ THEOREMS = [
     "Jinns.Solve.solve_resume",
     "Jinns.Solve.unstopped_of_no_validation",
     "Jinns.Solve.unstopped_of_never_stop",
+    "Jinns.Solve.solve_is_iter",
+    "Jinns.Solve.solve_i_le",
+    "Jinns.SolveFamily.refStates_eq",
+    "Jinns.SolveFamily.holdsC07_model",
+    "Jinns.SolveFamily.holdsC07_model_no_validation",
 ]
-LEAN_MODULES = ["JinnsProofs.C07"]
+LEAN_MODULES = ["JinnsProofs.C07", "JinnsProofs.C07Holds"]
 RULE = ("case = one static configuration (parameter pytree shape, loss structure, optimizer, tracked spec, generator "
         "sizes, n, jit-wrapped or plain call) x several data variations (initial values, coefficients, PRNG seeds); "
         "resume cases run n then m iterations from the returned (params, opt_state, data) and are judged alone and "
@@ -60,9 +65,18 @@ BITS_LIMIT = 50
 
 
 # ------------------------------------------------------------------------------------------------
-def _structure(rng, n, kind, aux=True):
+def _structure(rng, n, kind, aux=True, sharding=False):
     shape = rng.choice(sp.PSHAPES)
     gens = sp.random_gens(rng, with_aux=aux)
+    if sharding:
+        # second execution path of solve (obs_batch_sharding: get_batch_sharding + Python while loop):
+        # parameter and observation generators both present
+        b = gens["data"]["b"]
+        gens["param"] = {"n": rng.choice([x for x in (3, 4, 6, 8) if x >= b]), "seed": rng.randrange(1 << 30),
+                         "keys": ["nu"]}
+        no = rng.choice([x for x in (3, 4, 5, 8) if x >= b])
+        gens["obs"] = {"n": no, "seed": rng.randrange(1 << 30), "vals": [rng.randint(-3, 3) for _ in range(no)],
+                       "sharding_device": rng.random() < 0.5}
     if kind == "bilinear":
         opt = sp.random_opt(rng, rng.choice(["sgd", "schedule"]))
         opt["lr0"] = rng.choice(["1/2", "1/4"])
@@ -74,6 +88,15 @@ def _structure(rng, n, kind, aux=True):
            "jit": True, "val": None}
     seg["params"] = sp.random_params(rng, shape)
     seg["loss"] = sp.random_loss(rng, sum(sp.leaf_sizes(seg["params"])), gens, bilinear=(kind == "bilinear"))
+    if sharding:
+        seg["sharding"] = True
+        seg["jit"] = False
+        if seg["track"] is None:
+            seg["track"] = sp.full_track(shape)
+        # every batch column enters the loss (a dropped parameter / observation batch must show)
+        nflat = sum(sp.leaf_sizes(seg["params"]))
+        for j in range(1, sp.n_features(gens) - 1):
+            seg["loss"]["terms"][0][1].append([str(rng.choice([-1, 1])), [rng.randrange(nflat)], j])
     return seg
 
 
@@ -113,6 +136,13 @@ def gen_cases(rng, tier):
             plain = copy.deepcopy(base)
             plain["jit"] = False
             cases.append({"kind": "single", "segs": [plain]})
+    # the Python-loop path (obs_batch_sharding given), single and resumed runs
+    for n in ((3, 7) if tier == "quick" else (1, 2, 3, 5, 7, 9, 12)):
+        base = _structure(rng, n, "linear", sharding=True)
+        cases.append({"kind": "single", "segs": [base, _variant(rng, base)]})
+    for n, m in (((2, 3),) if tier == "quick" else ((1, 1), (2, 3), (4, 2), (5, 4))):
+        base = _structure(rng, n, "linear", sharding=True)
+        cases.append({"kind": "resume", "segs": [base], "m": m})
     for _ in range(nresume):
         n, m = rng.choice([(1, 1), (2, 3), (3, 2), (5, 4), (4, 7), (8, 8), (6, 1), (12, 9)])
         aux = rng.random() < 0.3
@@ -120,7 +150,10 @@ def gen_cases(rng, tier):
         if base["opt"]["momentum"] is not None and n + m > 16:
             base["opt"]["momentum"] = None
         cases.append({"kind": "resume", "segs": [base, _variant(rng, base)], "m": m})
-    return cases
+    # the (slow, eager) Python-loop cases go first so that they overlap with the bulk of the work
+    def _slow(c):
+        return bool((c.get("seg") or c["segs"][0]).get("sharding"))
+    return [c for c in cases if _slow(c)] + [c for c in cases if not _slow(c)]
 
 
 def shrink_candidates(case):
@@ -241,7 +274,9 @@ def nontrivial(case, obs):
 
 def tags(case, obs):
     seg = case["segs"][0]
-    out = [f"kind={case['kind']}", f"opt={seg['opt']['kind']}", "jit_wrapped" if seg.get("jit", True) else "plain_call",
+    out = [f"kind={case['kind']}", f"opt={seg['opt']['kind']}",
+           "python_loop(obs_batch_sharding)" if seg.get("sharding") else
+           ("jit_wrapped" if seg.get("jit", True) else "plain_call"),
            "n=0" if seg["n"] == 0 else ("n<=5" if seg["n"] <= 5 else ("n<=16" if seg["n"] <= 16 else "n<=40")),
            "b_divides_nt" if seg["gens"]["data"]["nt"] % seg["gens"]["data"]["b"] == 0 else "b_not_dividing_nt"]
     if seg["gens"]["param"]:
